@@ -4,7 +4,7 @@ span of the unmodified sdk/src/trace/span.cc under the deterministic scheduler (
 import itertools, re
 from vcore import Case, Harness, sdk_sources, SDK_INCLUDES
 
-WORDS = {'spn'}
+WORDS = {'spn', 'spn2'}      # spn2 = the same harness source built with OPENTELEMETRY_ABI_VERSION_NO=2 (Span::AddLink exists: op `l`)
 GEN = ['SpanLock']
 LEAN_TARGETS = ['OtelVerif.Props.C04Race']
 THEOREMS = ['Otel.C04Race.' + t for t in (
@@ -16,8 +16,11 @@ THEOREMS = ['Otel.C04Race.' + t for t in (
 SHIM = ['-include', 'harness/shim/detsched.h', '-DNDEBUG']
 H = Harness('d_spn', ['harness/d_span.cc'], flags=SHIM, includes=SDK_INCLUDES, plain_srcs=['harness/shim/detsched.cc'],
             sdk_srcs=sdk_sources('common', 'resource', 'version', 'trace'))
-HARNESSES = [H]
+H2 = Harness('d_spn2', ['harness/d_span.cc'], flags=SHIM + ['-UOPENTELEMETRY_ABI_VERSION_NO', '-DOPENTELEMETRY_ABI_VERSION_NO=2'],
+             includes=SDK_INCLUDES, plain_srcs=['harness/shim/detsched.cc'], sdk_srcs=sdk_sources('common', 'resource', 'version', 'trace'))
+HARNESSES = [H, H2]
 HN = 'd_spn'
+HN2 = 'd_spn2'
 RULE = ('race: 1-4 managed threads run scripted SetAttribute / AddEvent / SetStatus / UpdateName / End / IsRecording calls on ONE '
         'span of the UNMODIFIED span.cc (real TracerProvider / Tracer, harness Recordable and SpanProcessor that log every call) '
         'under the deterministic scheduler: preemption-bounded block schedules over small scripts, all interleavings of the '
@@ -35,15 +38,15 @@ LEVEL_NOTE_ADD = (' Race sub-check: trusted = the scheduler shim (sequentially c
                   'harness Recordable / SpanProcessor calls are the scheduling points; plain reads of recordable_ / has_ended_ outside '
                   'the lock are NOT scheduling points - a data race on them shows only through its effect at the next point), '
                   'props/c04_race.py::abstract, tools/gen_c04race.py. AddLink / AddLinks (ABI v2) are covered by the generated '
-                  'lock-discipline facts only, not scheduled.')
+                  'lock-discipline facts and scheduled in the ABI-v2 build d_spn2 (AddLink only).')
 
 
 def _case(line, *tags, origin='gen'):
-    return Case(line, HN, tags, origin)
+    return Case(line, HN2 if line.startswith('spn2') else HN, tags, origin)
 
 
-def line(scripts, sched):
-    return 'spn ' + ' '.join(','.join(s) if s else '-' for s in scripts) + (' ; ' + ' ; '.join(f't{t}' for t in sched) if sched else '')
+def line(scripts, sched, word='spn'):
+    return word + ' ' + ' '.join(','.join(s) if s else '-' for s in scripts) + (' ; ' + ' ; '.join(f't{t}' for t in sched) if sched else '')
 
 
 def corpus():
@@ -58,6 +61,8 @@ def corpus():
     c.append(_case(line([['E'], ['E'], ['r', 'r']], [0, 0, 1, 1, 0, 2, 2, 1, 0, 0, 2, 2, 1, 1, 2, 2, 2]), 'corpus', 'race-two-ends', origin='corpus'))
     c.append(_case(line([['ak', 'e', 's1', 'n', 'E', 'ak', 'r']], []), 'corpus', 'single-thread', origin='corpus'))
     c.append(_case(line([['ak'], ['ak'], ['ak'], ['r']], [3, 2, 1, 0] * 6), 'corpus', 'no-end-in-scripts', origin='corpus'))
+    c.append(_case(line([['E'], ['l']], [1, 1, 0, 0, 0, 0, 0, 0, 1, 1, 1], 'spn2'), 'corpus', 'race-check-then-end', 'abi2-addlink', origin='corpus'))
+    c.append(_case(line([['l', 'E', 'l'], ['ak', 'l', 'r']], [0, 1, 0, 1] * 8, 'spn2'), 'corpus', 'abi2-addlink', origin='corpus'))
     return c
 
 
@@ -112,8 +117,23 @@ def generate(rng, tier):
         if rng.random() < 0.03:
             sched[rng.randrange(n)] = 7      # an invalid thread id is answered `x`
         out.append(_case(line(scripts, sched), 'race', 'random', f'threads={nt}'))
+    # ABI v2 build: AddLink among the mutators
+    for sched in block_schedules(2, 3, lens):
+        out.append(_case(line([['l', 'E'], ['l', 'ak']], sched, 'spn2'), 'race', 'preempt-bounded', 'abi2-addlink'))
+    for _ in range(4000 if big else 300):
+        nt = rng.choice([2, 2, 3])
+        scripts = [[rng.choice(OPS + ['l', 'l', 'l']) for _k in range(rng.choice([1, 2, 2, 3]))] for _t in range(nt)]
+        if not any('E' in s for s in scripts):
+            scripts[rng.randrange(nt)].append('E')
+        n = rng.randrange(6, 60)
+        cur = rng.randrange(nt); sched = []
+        for _k in range(n):
+            if rng.random() < 0.4:
+                cur = rng.randrange(nt)
+            sched.append(cur)
+        out.append(_case(line(scripts, sched, 'spn2'), 'race', 'random', 'abi2-addlink'))
     for _ in range(40 if big else 10):
-        out.append(_case(rng.choice(['spn', 'spn ak,,E ; t0', 'spn aK ; t0', 'spn s3 ; t0', 'spn ak E r n e ; t0', 'spn ak ; u0',
+        out.append(_case(rng.choice(['spn', 'spn l,E ; t0', 'spn2 ll ; t0', 'spn ak,,E ; t0', 'spn aK ; t0', 'spn s3 ; t0', 'spn ak E r n e ; t0', 'spn ak ; u0',
                                      'spn ak ; t0 t1', 'spn x ; t0', 'spn ak,E ; t99999', 'spn a ; t0']), 'race', 'malformed'))
     return out
 
@@ -231,8 +251,9 @@ class Call:
 def wellformed(ln):
     """the case grammar of harness/d_span.cc"""
     toks = ln.split()
-    if not toks or toks[0] != 'spn':
+    if not toks or toks[0] not in ('spn', 'spn2'):
         return False
+    rx = r'a[a-z]|s[0-2]|[enErl]' if toks[0] == 'spn2' else r'a[a-z]|s[0-2]|[enEr]'
     ops = ' '.join(toks[1:]).split(' ; ') if len(toks) > 1 else ['']
     scripts = ops[0].split()
     if not 1 <= len(scripts) <= 4:
@@ -241,7 +262,7 @@ def wellformed(ln):
         if s == '-':
             continue
         o = s.split(',')
-        if len(o) > 8 or not all(re.fullmatch(r'a[a-z]|s[0-2]|[enEr]', x) for x in o):
+        if len(o) > 8 or not all(re.fullmatch(rx, x) for x in o):
             return False
     return all(re.fullmatch(r't\d{1,3}', a) for a in ops[1:])
 
@@ -293,7 +314,7 @@ def oracle(case, out):
                     return ('no-write-after-the-recordable-was-handed-to-OnEnd', f'{c.name() if c else tid}: {entry} reached the recordable after OnEnd received it')
                 if c is None:
                     return ('trace-readable', f'T{tid}: setter outside a call')
-                want = 'dur' if c.kind == 'end' else {'set': 'set', 'ev': 'ev', 'st': 'st', 'nm': 'nm'}.get(c.kind)
+                want = 'dur' if c.kind == 'end' else {'set': 'set', 'ev': 'ev', 'st': 'st', 'nm': 'nm', 'lk': 'lk'}.get(c.kind)
                 if t[1] != want or (c.ident is not None and int(t[-1]) != c.ident):
                     return ('recordable-receives-what-was-passed', f'{c.name()}: recordable received {entry}')
                 c.writes.append(tm)
